@@ -156,10 +156,48 @@ CRASH_PROBES = [
 ]
 
 
+# the words `keywords.RESERVED` refuses as names on the pinned source: a reserved word left dangling where an
+# alias could follow must be rejected (written out here: a word that silently stops being reserved must not
+# disappear from the probe set)
+RESERVED_CORE = ["and", "as", "asc", "begin", "between", "by", "case", "collate", "constraint", "create", "cross", "desc", "distinct",
+                 "else", "end", "except", "false", "fetch", "for", "foreign", "from", "full", "group", "having", "in", "inner",
+                 "intersect", "into", "is", "join", "lateral", "left", "like", "limit", "minus", "natural", "nocase", "not", "null",
+                 "offset", "on", "or", "order", "outer", "over", "partition", "pivot", "primary", "qualify", "references", "right",
+                 "rlike", "select", "set", "straight_join", "tablesample", "then", "true", "union", "unique", "unnest", "unpivot",
+                 "using", "when", "where", "window", "with", "within"]
+DANGLING_TEMPLATES = ["select a {w}", "select a {w} from t", "select a from t {w}", "select a, b {w} from t", "select f(a) {w}"]
+
+# DELIMITER directives with odd arguments (and what byte-level mutation makes of them): must come back, whatever they are
+DELIMITER_PROBES = ["select 1;\nDELIMITER  \nselect 2;", "DELIMITER \t\nselect 1", "delimiter \r\nselect 1;", "DELIMITER\nselect 1",
+                    "DELIMITER ;\nselect 1;", "delimiter $$\nselect 1 $$\n", "delimiter $$ \n\n", "DELIMITER  ;  \nselect 1 ;\n",
+                    "select 1\ndelimiter", "delimiter \\\nselect 1 \\\n", "DELIMITER \x0b\nselect 1", "delimiter  \n \n select 1"]
+
+
 def run(ctx, scale=1):
     rep = ctx.rep
     rng = ctx.rng
     gen = ctx.gen
+    for sql in DELIMITER_PROBES:
+        for d in DIALECTS[:2]:
+            o = _pw((sql, d))
+            rep.count("delimiter_probe", "tree" if o[0] == "ok" else o[1])
+            bad = classify(o, len(sql))
+            if bad:
+                rep.finding(bad, "%s: %r -> %s" % (d, sql, o[1]), {"kind": "arbitrary", "sql": sql, "dialect": d})
+    words = sorted(set(RESERVED_CORE))
+    for w in words:
+        for tpl in DANGLING_TEMPLATES:
+            sql = tpl.format(w=w)
+            o = _pw((sql, "common"))
+            rep.count("dangling_reserved", "tree" if o[0] == "ok" else o[1])
+            rep.case("dangling:" + sql)
+            if o[0] == "ok":
+                rep.finding("answered:dangling-reserved-word", "%r is answered with %s" % (sql, o[1][:120]),
+                            {"kind": "ill-formed", "sql": sql, "dialect": "common"}, sub="%s|%s" % (w, DANGLING_TEMPLATES.index(tpl)))
+            else:
+                bad = classify(o, len(sql))
+                if bad:
+                    rep.finding(bad, "%r -> %s" % (sql, o[1]), {"kind": "arbitrary", "sql": sql, "dialect": "common"})
     for d, sql in CRASH_PROBES:
         o = _pw((sql, d))
         rep.count("crash_probe", "tree" if o[0] == "ok" else o[1])
@@ -174,7 +212,7 @@ def run(ctx, scale=1):
     # exactly what is run; VERIF_SEED drives the mutation fuzzing and which dialects see which edit.
     import random as _random
     g = GT.Gen(_random.Random(14014))
-    n = (250 if ctx.quick else 1200) * (1 if scale == 1 else 2)
+    n = (250 if ctx.quick else 800) * (1 if scale == 1 else 2)
     items, metas = [], []
     for si in range(n):
         kind, toks = g.statement()
